@@ -120,8 +120,20 @@ pub fn colors() -> DocSpec {
         ("C4", Val::Arr(vec![Val::name("Separation"), Val::name("S2"), Val::Arr(vec![Val::name("Indexed"), Val::name("DeviceGray"), Val::Int(2), Val::Str(vec![0, 1, 2])]), Val::r(f0)])),
         ("C5", Val::Arr(vec![Val::name("Separation"), Val::name("S3"), Val::name("DeviceGray"), Val::r(f3)])),
     ]);
-    let content = b.add_stream(vec![], b"/C0 cs 1 sc 0 0 10 10 re f".to_vec());
-    let catalog = base(&mut b, vec![], Val::dict(vec![("ColorSpace", cs)]), Some(content));
+    // colour spaces stored as indirect objects that refer to each other (alternate / base spaces)
+    let ind_base = b.add(Val::Arr(vec![Val::name("ICCBased"), Val::r(icc)]));
+    let ind_dn = b.add(Val::Arr(vec![Val::name("DeviceN"), Val::Arr(vec![Val::name("Spot")]), Val::r(ind_base), Val::r(f2)]));
+    let ind_sep = b.add(Val::Arr(vec![Val::name("Separation"), Val::name("S4"), Val::r(ind_dn), Val::r(f2)]));
+    let ind_idx = b.add(Val::Arr(vec![Val::name("Indexed"), Val::r(ind_sep), Val::Int(1), Val::Str(vec![0, 1, 2, 3, 4, 5])]));
+    let mut cs = cs;
+    cs.set("C6", Val::r(ind_idx));
+    cs.set("C7", Val::r(ind_dn));
+    let img = b.add_stream(
+        vec![("Type".into(), Val::name("XObject")), ("Subtype".into(), Val::name("Image")), ("Width".into(), Val::Int(1)), ("Height".into(), Val::Int(1)), ("ColorSpace".into(), Val::r(ind_sep)), ("BitsPerComponent".into(), Val::Int(8))],
+        vec![7],
+    );
+    let content = b.add_stream(vec![], b"/C0 cs 1 sc 0 0 10 10 re f /I0 Do".to_vec());
+    let catalog = base(&mut b, vec![], Val::dict(vec![("ColorSpace", cs), ("XObject", Val::dict(vec![("I0", Val::r(img))]))]), Some(content));
     finish_classic(b, catalog)
 }
 
